@@ -701,12 +701,16 @@ theorem clientDelete_worker (s : State) (c k : Nat) : (clientDelete s c k).1.wor
   · rfl
   · exact (sendCmd_frame _ _ _).2.2.2.2.2.1
 
+def Ev.isWorker : Ev → Bool
+  | .worker => true
+  | _ => false
+
 /-- only the worker's own step changes the `worker` field -/
 theorem step_worker_frame {s s' : State} {ev : Ev} {o o' : Oracle} {out : Out}
-    (hev : (match ev with | .worker => false | _ => true) = true)
+    (hev : ev.isWorker = false)
     (h : step s ev o = .ok (s', out, o')) : s'.worker = s.worker := by
   cases ev with
-  | worker => simp at hev
+  | worker => simp [Ev.isWorker] at hev
   | put c k v =>
     simp only [step, Except.ok.injEq, Prod.mk.injEq] at h; obtain ⟨rfl, _⟩ := h
     exact (clientPuts_worker s c k v 0 0).1
@@ -770,6 +774,144 @@ theorem step_worker_frame {s s' : State} {ev : Ev} {o o' : Oracle} {out : Out}
     simp only [step] at h
     split at h
     · simp only [Except.ok.injEq, Prod.mk.injEq] at h; obtain ⟨rfl, _⟩ := h; rfl
+    · cases h
+
+/-! `.workerPanic` is an output of the worker's event only -/
+
+theorem sendCmd_ne_workerPanic (s : State) (c : Nat) (cmd : Cmd) (p : Panic) : (sendCmd s c cmd).2 ≠ .workerPanic p := by
+  unfold sendCmd; split
+  · simp
+  · split <;> simp
+
+theorem clientPutChecked_ne_workerPanic (s : State) (c k v : Nat) (w : Int) (ttl : Option Nat) (p : Panic) :
+    (clientPutChecked s c k v w ttl).2 ≠ .workerPanic p := by
+  unfold clientPutChecked
+  split
+  · simp [spotAck]
+  · cases ttl <;> exact sendCmd_ne_workerPanic _ _ _ _
+
+theorem clientPuts_ne_workerPanic (s : State) (c k v t : Nat) (w : Int) (p : Panic) :
+    (clientPut s c k v).2 ≠ .workerPanic p ∧ (clientPutW s c k v w).2 ≠ .workerPanic p ∧
+    (clientPutTtl s c k v t).2 ≠ .workerPanic p ∧ (clientPutWTtl s c k v w t).2 ≠ .workerPanic p := by
+  refine ⟨?_, ?_, ?_, ?_⟩
+  · unfold clientPut; simp only []; split; simp; split; simp; exact clientPutChecked_ne_workerPanic _ _ _ _ _ _ _
+  · unfold clientPutW; split; simp; split; simp; exact clientPutChecked_ne_workerPanic _ _ _ _ _ _ _
+  · unfold clientPutTtl; split; simp; simp only []; split; simp; exact clientPutChecked_ne_workerPanic _ _ _ _ _ _ _
+  · unfold clientPutWTtl; split; simp; split; simp; exact clientPutChecked_ne_workerPanic _ _ _ _ _ _ _
+
+theorem clientUpsert_ne_workerPanic (s : State) (c k : Nat) (v : Option Nat) (w : Option Int) (ttl : Option Nat)
+    (rm : Bool) (p : Panic) : (clientUpsert s c k v w ttl rm).2 ≠ .workerPanic p := by
+  cases hsh : s.shutting with
+  | true => simp [clientUpsert, hsh]
+  | false =>
+    cases hk : s.store.get? k with
+    | none =>
+      unfold clientUpsert
+      simp only [hsh, Bool.false_eq_true, if_false, hk]
+      split
+      · split
+        · simp
+        · cases ttl <;> exact sendCmd_ne_workerPanic _ _ _ _
+      · simp
+    | some e =>
+      cases hne : upsertNewExpiry? s e ttl rm with
+      | none => rw [clientUpsert_present_overflow s c k v w ttl rm e hsh hk hne]; simp
+      | some ne =>
+        rw [clientUpsert_present s c k v w ttl rm e ne hsh hk hne]
+        rcases upsertFinish_out (upsertMid s k e v ne) c e.id (upsertWeight s e v w ttl ne) with
+          h | h | h | h | h | h <;> simp [h]
+
+theorem shutdownSendBuf_ne_workerPanic (s : State) (c : Nat) (p : Panic) :
+    (shutdownSendBuf s c).2 ≠ .workerPanic p := by
+  unfold shutdownSendBuf
+  split
+  · simp
+  · split <;> simp
+
+theorem shutdownSendCmd_ne_workerPanic (s : State) (c : Nat) (p : Panic) :
+    (shutdownSendCmd s c).2 ≠ .workerPanic p := by
+  unfold shutdownSendCmd
+  split
+  · exact shutdownSendBuf_ne_workerPanic _ _ _
+  · split
+    · simp
+    · exact shutdownSendBuf_ne_workerPanic _ _ _
+
+theorem resume_ne_workerPanic (s : State) (c : Nat) (r : State × Out) (h : resume s c = .ok r) (p : Panic) :
+    r.2 ≠ .workerPanic p := by
+  unfold resume at h
+  split at h
+  · cases h
+  · simp only [] at h
+    split at h <;> split at h <;> (try cases h)
+    · exact sendCmd_ne_workerPanic _ _ _ _
+    · exact shutdownSendCmd_ne_workerPanic _ _ _
+    · exact shutdownSendBuf_ne_workerPanic _ _ _
+
+theorem step_ne_workerPanic {s s' : State} {ev : Ev} {o o' : Oracle} {out : Out} (hev : ev.isWorker = false)
+    (h : step s ev o = .ok (s', out, o')) (p : Panic) : out ≠ .workerPanic p := by
+  cases ev with
+  | worker => simp [Ev.isWorker] at hev
+  | put c k v =>
+    simp only [step, Except.ok.injEq, Prod.mk.injEq] at h; obtain ⟨_, rfl, _⟩ := h
+    exact (clientPuts_ne_workerPanic s c k v 0 0 p).1
+  | putW c k v w =>
+    simp only [step, Except.ok.injEq, Prod.mk.injEq] at h; obtain ⟨_, rfl, _⟩ := h
+    exact (clientPuts_ne_workerPanic s c k v 0 w p).2.1
+  | putTtl c k v t =>
+    simp only [step, Except.ok.injEq, Prod.mk.injEq] at h; obtain ⟨_, rfl, _⟩ := h
+    exact (clientPuts_ne_workerPanic s c k v t 0 p).2.2.1
+  | putWTtl c k v w t =>
+    simp only [step, Except.ok.injEq, Prod.mk.injEq] at h; obtain ⟨_, rfl, _⟩ := h
+    exact (clientPuts_ne_workerPanic s c k v t w p).2.2.2
+  | upsert c k v w t rm =>
+    simp only [step, Except.ok.injEq, Prod.mk.injEq] at h; obtain ⟨_, rfl, _⟩ := h
+    exact clientUpsert_ne_workerPanic _ _ _ _ _ _ _ _
+  | delete c k =>
+    simp only [step, Except.ok.injEq, Prod.mk.injEq] at h; obtain ⟨_, rfl, _⟩ := h
+    unfold clientDelete; split; simp; exact sendCmd_ne_workerPanic _ _ _ _
+  | get k =>
+    simp only [step] at h
+    unfold clientGet at h
+    split at h
+    · simp only [Except.ok.injEq, Prod.mk.injEq] at h; obtain ⟨_, rfl, _⟩ := h; simp
+    · split at h
+      · simp only [Except.ok.injEq, Prod.mk.injEq] at h; obtain ⟨_, rfl, _⟩ := h; simp
+      · cases h
+  | multiGet ks =>
+    simp only [step] at h
+    unfold clientMultiGet at h
+    split at h
+    · simp only [Except.ok.injEq, Prod.mk.injEq] at h; obtain ⟨_, rfl, _⟩ := h; simp
+    · split at h
+      · simp only [Except.ok.injEq, Prod.mk.injEq] at h; obtain ⟨_, rfl, _⟩ := h; simp
+      · cases h
+  | weight => simp only [step, Except.ok.injEq, Prod.mk.injEq] at h; obtain ⟨_, rfl, _⟩ := h; simp
+  | stats => simp only [step, Except.ok.injEq, Prod.mk.injEq] at h; obtain ⟨_, rfl, _⟩ := h; simp
+  | sweep =>
+    simp only [step] at h
+    split at h
+    · rename_i r hr
+      simp only [Except.ok.injEq, Prod.mk.injEq] at h; obtain ⟨_, rfl, _⟩ := h
+      obtain ⟨ev, hev⟩ := (sweepStep_ok (s' := r.1) (out := r.2) hr).1
+      simp [hev]
+    · cases h
+  | consumer => rw [(consumerStep_ok h).1]; simp
+  | advance d => simp only [step, Except.ok.injEq, Prod.mk.injEq] at h; obtain ⟨_, rfl, _⟩ := h; simp
+  | shutdown c =>
+    simp only [step, Except.ok.injEq, Prod.mk.injEq] at h; obtain ⟨_, rfl, _⟩ := h
+    unfold clientShutdown; split; simp; exact shutdownSendCmd_ne_workerPanic _ _ _
+  | resume c =>
+    simp only [step] at h
+    split at h
+    · rename_i r hr
+      simp only [Except.ok.injEq, Prod.mk.injEq] at h; obtain ⟨_, rfl, _⟩ := h
+      exact resume_ne_workerPanic _ _ _ hr p
+    · cases h
+  | poll hd =>
+    simp only [step] at h
+    split at h
+    · simp only [Except.ok.injEq, Prod.mk.injEq] at h; obtain ⟨_, rfl, _⟩ := h; simp
     · cases h
 
 theorem poolAdd_no_sketch_panic (s : State) (h : Nat) (o : Oracle) : poolAdd s h o ≠ .error sketchPanic := by
@@ -836,7 +978,7 @@ theorem workerStep_no_sketch_panic (s : State) (o : Oracle) (wf : s.lfu.fc.WF) :
           intro hc
           simp only [Except.error.injEq] at hc
           subst hc
-          exact workerPut_no_sketch_panic _ wf _ _ _ _ _ _ _ hm
+          exact workerPut_no_sketch_panic { s with queue := q } wf _ _ _ _ _ _ _ hm
       | putTtl id hash w k v t =>
         simp only []
         split
@@ -846,7 +988,7 @@ theorem workerStep_no_sketch_panic (s : State) (o : Oracle) (wf : s.lfu.fc.WF) :
           intro hc
           simp only [Except.error.injEq] at hc
           subst hc
-          exact workerPut_no_sketch_panic _ wf _ _ _ _ _ _ _ hm
+          exact workerPut_no_sketch_panic { s with queue := q } wf _ _ _ _ _ _ _ hm
       | updateWeight id w =>
         obtain ⟨x, hx⟩ := workerFinish_isOk h "UpdateWeight" (workerUpdateWeight { s with queue := q } id w, o)
         simp [hx]
@@ -873,11 +1015,11 @@ theorem consumerStep_no_sketch_panic (s : State) (o : Oracle) (wf : s.lfu.fc.WF)
 /-! ### running a history -/
 
 /-- run a list of events with empty oracles (enough for histories that never evict and never read) -/
-def runEvents (s : State) : List Ev → Except String State
+def runEvents_Upsert (s : State) : List Ev → Except String State
   | [] => .ok s
   | ev :: evs =>
     match step s ev {} with
-    | .ok (s', _, _) => runEvents s' evs
+    | .ok (s', _, _) => runEvents_Upsert s' evs
     | .error m => .error m
 
 end Cached
